@@ -265,3 +265,305 @@ async fn reads_enum_quick() {
 async fn reads_enum_thorough() {
 	reads_enum_impl(4, "reads_enum_thorough").await;
 }
+
+// ------------------------------------------------------------------------------------------------
+// C10 bounded check: time-travel reads and history listings on a real versioned Tree (retention unlimited).
+//  (a) MODEL: get_at(k, T) = value of the retained version with the greatest timestamp <= T, the latest commit
+//      among equal timestamps, nothing if it is a delete or none exists; a hard delete or a replace erases every
+//      earlier version for good.
+//  (b) METAMORPHIC: every get_at answer and the complete history listing (forward and backward, with and
+//      without tombstones) are identical before and after flush, after a compaction round, and after reopen;
+//      get_at answers are identical with and without the B+tree version index.
+// Bound (stated): one key (plus two untouched neighbours), programs of <= `maxlen` operations from
+// {set_at 100, set_at 200, soft delete at 100, soft delete at 200, hard delete at 200, replace (commit time),
+// flush} with non-decreasing timestamps, read timestamps {50,100,150,200,250,now}, both index back-ends.
+#[derive(Clone, Copy, Debug, PartialEq)]
+enum VOp {
+	SetAt(u64),
+	SoftDelAt(u64),
+	HardDelAt(u64),
+	Replace,
+	Flush,
+}
+
+#[derive(Clone, Debug, PartialEq)]
+struct Ver {
+	ts: u64,
+	tomb: bool,
+	val: Vec<u8>,
+}
+
+type Obs = (Vec<Option<Vec<u8>>>, Vec<Vec<(Vec<u8>, u64, bool, Vec<u8>)>>);
+
+fn observe(tree: &crate::Tree, reads: &[u64]) -> std::result::Result<Obs, String> {
+	use crate::HistoryOptions;
+	let tx = tree.begin().map_err(|e| e.to_string())?;
+	let mut gets = Vec::new();
+	for &t in reads {
+		gets.push(tx.get_at(b"k".to_vec(), t).map_err(|e| format!("get_at({t}) failed: {e}"))?);
+	}
+	let mut lists = Vec::new();
+	for tomb in [false, true] {
+		for backward in [false, true] {
+			let opts = HistoryOptions::new().with_tombstones(tomb);
+			let mut it = tx.history_with_options(b"a".to_vec(), b"z".to_vec(), &opts).map_err(|e| format!("history failed: {e}"))?;
+			let mut out = Vec::new();
+			let mut ok = if backward { it.seek_last() } else { it.seek_first() }.map_err(|e| format!("history seek failed: {e}"))?;
+			let mut guard = 0;
+			while ok && guard < 100 {
+				guard += 1;
+				let k = it.key();
+				out.push((k.user_key().to_vec(), k.timestamp(), k.is_tombstone(), if k.is_tombstone() { Vec::new() } else { it.value().map_err(|e| format!("history value failed: {e}"))? }));
+				ok = if backward { it.prev() } else { it.next() }.map_err(|e| format!("history step failed: {e}"))?;
+			}
+			if backward {
+				out.reverse();
+			}
+			lists.push(out);
+		}
+	}
+	Ok((gets, lists))
+}
+
+async fn timetravel_enum_impl(maxlen: usize, name: &str) {
+	use crate::compaction::leveled::Strategy;
+	use crate::WriteOptions;
+	let alpha = [VOp::SetAt(100), VOp::SetAt(200), VOp::SoftDelAt(100), VOp::SoftDelAt(200), VOp::HardDelAt(200), VOp::Replace, VOp::Flush];
+	let reads: Vec<u64> = vec![50, 100, 150, 200, 250, u64::MAX];
+	let mut kf21 = 0u64;
+	let mut kf21_example = String::new();
+	let mut cases = 0u64;
+	let mut nontrivial = 0u64;
+	let mut failures: Vec<String> = Vec::new();
+	let mut samples: Vec<String> = Vec::new();
+	for len in 1..=maxlen {
+		'prog: for code in 0..alpha.len().pow(len as u32) {
+			let mut ops = Vec::new();
+			let mut x = code;
+			for _ in 0..len {
+				ops.push(alpha[x % alpha.len()]);
+				x /= alpha.len();
+			}
+			// non-decreasing timestamps; a replace is written at commit time, nothing explicit may follow it
+			let mut last = 0u64;
+			for op in &ops {
+				let ts = match op {
+					VOp::SetAt(t) | VOp::SoftDelAt(t) | VOp::HardDelAt(t) => *t,
+					VOp::Replace => u64::MAX,
+					VOp::Flush => continue,
+				};
+				if ts < last {
+					continue 'prog;
+				}
+				last = ts;
+			}
+			if !ops.iter().any(|o| !matches!(o, VOp::Flush)) {
+				continue;
+			}
+			cases += 1;
+			// model
+			let mut vers: Vec<Ver> = Vec::new();
+			let mut replace_seen = false;
+			for (i, op) in ops.iter().enumerate() {
+				let v = format!("v{i}").into_bytes();
+				match *op {
+					VOp::SetAt(t) => vers.push(Ver { ts: t, tomb: false, val: v }),
+					VOp::SoftDelAt(t) => vers.push(Ver { ts: t, tomb: true, val: Vec::new() }),
+					VOp::HardDelAt(t) => {
+						vers.clear();
+						vers.push(Ver { ts: t, tomb: true, val: Vec::new() });
+					}
+					VOp::Replace => {
+						vers.clear();
+						replace_seen = true;
+						vers.push(Ver { ts: u64::MAX, tomb: false, val: v }); // written at commit time: after every explicit timestamp used here
+					}
+					VOp::Flush => {}
+				}
+			}
+			let want: Vec<Option<Vec<u8>>> = reads
+				.iter()
+				.map(|&t| {
+					let mut best: Option<&Ver> = None;
+					for v in &vers {
+						// commit time of a replace lies between 250 and u64::MAX
+						let vts = v.ts;
+						if vts <= t && best.map_or(true, |b| vts >= b.ts) {
+							best = Some(v);
+						}
+					}
+					best.and_then(|b| if b.tomb { None } else { Some(b.val.clone()) })
+				})
+				.collect();
+			let mut per_index: Vec<Vec<Option<Vec<u8>>>> = Vec::new();
+			let mut bad: Option<String> = None;
+			let mut hist_only_with_index = false;
+			// two writes of the key with the same timestamp (the version index holds one entry per (key, timestamp))
+			let stamps: Vec<u64> = ops.iter().filter_map(|o| match o { VOp::SetAt(t) | VOp::SoftDelAt(t) | VOp::HardDelAt(t) => Some(*t), _ => None }).collect();
+			let dup_ts = (0..stamps.len()).any(|i| (0..i).any(|j| stamps[i] == stamps[j]));
+			for index in [false, true] {
+				let dir = tempdir::TempDir::new("verif_c10").unwrap();
+				let build = |p: &std::path::Path| TreeBuilder::new().with_path(p.to_path_buf()).with_level_count(3).with_versioning(true, 0).with_versioned_index(index).build_with_options();
+				let (tree, opts) = match build(dir.path()) {
+					Ok(x) => x,
+					Err(e) => {
+						bad = Some(format!("open failed: {e}"));
+						break;
+					}
+				};
+				let mut o = (*opts).clone();
+				o.level0_max_files = 1;
+				let strat = Arc::new(Strategy::from_options(Arc::new(o)));
+				for nk in [b"j".to_vec(), b"l".to_vec()] {
+					let mut t = tree.begin().unwrap();
+					t.set_at(nk, b"neighbour".to_vec(), 10).unwrap();
+					t.commit().await.unwrap();
+				}
+				for (i, op) in ops.iter().enumerate() {
+					let v = format!("v{i}").into_bytes();
+					let mut t = tree.begin().unwrap();
+					let r = match *op {
+						VOp::SetAt(ts) => t.set_at(b"k".to_vec(), v, ts),
+						VOp::SoftDelAt(ts) => t.soft_delete_with_options(b"k".to_vec(), &WriteOptions::new().with_timestamp(Some(ts))),
+						VOp::HardDelAt(ts) => t.delete_with_options(b"k".to_vec(), &WriteOptions::new().with_timestamp(Some(ts))),
+						VOp::Replace => t.replace(b"k".to_vec(), v),
+						VOp::Flush => {
+							drop(t);
+							let _ = tree.flush();
+							continue;
+						}
+					};
+					if let Err(e) = r {
+						bad = Some(format!("op #{i} {:?} failed: {e}", op));
+						break;
+					}
+					if let Err(e) = t.commit().await {
+						bad = Some(format!("commit of op #{i} {:?} failed: {e}", op));
+						break;
+					}
+				}
+				if bad.is_some() {
+					break;
+				}
+				let o1 = match observe(&tree, &reads) {
+					Ok(o) => o,
+					Err(e) => {
+						bad = Some(format!("index={index}: {e}"));
+						break;
+					}
+				};
+				// (a) model
+				let mut got = o1.0.clone();
+				let mut wantx = want.clone();
+				if replace_seen {
+					// the commit time of the replace is only known to lie above 250: compare the 'now' read only
+					for i in 0..reads.len() - 1 {
+						got[i] = None;
+						wantx[i] = None;
+					}
+				}
+				if got != wantx {
+					bad = Some(format!("index={index}: get_at at {:?} returns {:?}, the version with the greatest timestamp not above T is {:?}", reads, o1.0.iter().map(|v| v.as_ref().map(|b| String::from_utf8_lossy(b).to_string())).collect::<Vec<_>>(), want.iter().map(|v| v.as_ref().map(|b| String::from_utf8_lossy(b).to_string())).collect::<Vec<_>>()));
+					break;
+				}
+				per_index.push(o1.0.clone());
+				// (b) metamorphic: flush, compact, reopen
+				let mut stage = "flush";
+				let _ = tree.flush();
+				let mut o_prev = o1.clone();
+				for round in 0..3 {
+					let o2 = match observe(&tree, &reads) {
+						Ok(o) => o,
+						Err(e) => {
+							bad = Some(format!("index={index} after {stage}: {e}"));
+							break;
+						}
+					};
+					if o2 != o_prev {
+						let which = if o2.0 != o_prev.0 { format!("get_at answers {:?} became {:?}", o_prev.0.iter().map(|v| v.as_ref().map(|b| String::from_utf8_lossy(b).to_string())).collect::<Vec<_>>(), o2.0.iter().map(|v| v.as_ref().map(|b| String::from_utf8_lossy(b).to_string())).collect::<Vec<_>>()) } else {
+							let i = (0..4).find(|&i| o2.1[i] != o_prev.1[i]).unwrap();
+							format!("history listing (tombstones={}, backward={}) was {:?} and became {:?}", i / 2 == 1, i % 2 == 1, o_prev.1[i].iter().map(|(k, t, d, v)| format!("{}@{}{}={}", String::from_utf8_lossy(k), t, if *d { " DEL" } else { "" }, String::from_utf8_lossy(v))).collect::<Vec<_>>(), o2.1[i].iter().map(|(k, t, d, v)| format!("{}@{}{}={}", String::from_utf8_lossy(k), t, if *d { " DEL" } else { "" }, String::from_utf8_lossy(v))).collect::<Vec<_>>())
+						};
+						hist_only_with_index = index;
+						bad = Some(format!("index={index}: answers changed by {stage}: {which}"));
+						break;
+					}
+					o_prev = o2;
+					if round == 0 {
+						stage = "compaction";
+						let _ = tree.compact(strat.clone());
+					} else if round == 1 {
+						stage = "a second compaction";
+						let _ = tree.compact(strat.clone());
+					}
+				}
+				let _ = tree.close().await;
+				if bad.is_some() {
+					break;
+				}
+				// reopen
+				match build(dir.path()) {
+					Err(e) => {
+						bad = Some(format!("index={index}: reopen failed: {e}"));
+						break;
+					}
+					Ok((tree2, _)) => {
+						match observe(&tree2, &reads) {
+							Ok(o4) => {
+								if o4 != o_prev {
+									hist_only_with_index = index;
+									bad = Some(format!("index={index}: answers changed by reopen: get_at {:?} -> {:?}; history sizes {:?} -> {:?}", o_prev.0.iter().map(|v| v.as_ref().map(|b| String::from_utf8_lossy(b).to_string())).collect::<Vec<_>>(), o4.0.iter().map(|v| v.as_ref().map(|b| String::from_utf8_lossy(b).to_string())).collect::<Vec<_>>(), o_prev.1.iter().map(|l| l.len()).collect::<Vec<_>>(), o4.1.iter().map(|l| l.len()).collect::<Vec<_>>()));
+								}
+							}
+							Err(e) => bad = Some(format!("index={index} after reopen: {e}")),
+						}
+						let _ = tree2.close().await;
+					}
+				}
+				if bad.is_some() {
+					break;
+				}
+			}
+			if bad.is_none() && per_index.len() == 2 && per_index[0] != per_index[1] && !replace_seen {
+				bad = Some(format!("get_at answers differ without / with the version index: {:?} vs {:?}", per_index[0].iter().map(|v| v.as_ref().map(|b| String::from_utf8_lossy(b).to_string())).collect::<Vec<_>>(), per_index[1].iter().map(|v| v.as_ref().map(|b| String::from_utf8_lossy(b).to_string())).collect::<Vec<_>>()));
+			}
+			if ops.iter().filter(|o| !matches!(o, VOp::Flush)).count() >= 2 {
+				nontrivial += 1;
+				if samples.len() < 3 && len == maxlen && ops.contains(&VOp::Flush) {
+					samples.push(format!("\"{:?}\"", ops));
+				}
+			}
+			if let Some(b) = bad {
+				// candidate for known finding F21 (decided by check.py against known_findings.json, not here): with the
+				// version index ON, two writes of one key with the SAME timestamp, and the answers differ between
+				// before and after the index is filled (flush) - never a disagreement with the model, never without
+				// the index
+				if hist_only_with_index && dup_ts {
+					kf21 += 1;
+					if kf21_example.is_empty() {
+						kf21_example = format!("{{\"program_on_key_k\":\"{:?}\",\"mismatch\":{:?}}}", ops, b);
+					}
+				} else if failures.len() < 8 {
+					failures.push(format!("{{\"program_on_key_k\":\"{:?}\",\"mismatch\":{:?}}}", ops, b));
+				}
+			}
+		}
+	}
+	println!(
+		"REPLAY-RESULT {{\"driver\":\"snapshot::{name}\",\"cases\":{cases},\"distinct_nontrivial\":{nontrivial},\"samples\":[{}],\"kf_candidates\":{{\"F21\":{{\"count\":{kf21},\"example\":{}}}}},\"failures\":[{}]}}",
+		samples.join(","),
+		if kf21_example.is_empty() { "null".to_string() } else { kf21_example.clone() },
+		failures.join(",")
+	);
+	assert!(failures.is_empty());
+}
+
+#[tokio::test(flavor = "multi_thread", worker_threads = 2)]
+async fn timetravel_enum_quick() {
+	timetravel_enum_impl(3, "timetravel_enum_quick").await;
+}
+
+#[tokio::test(flavor = "multi_thread", worker_threads = 2)]
+async fn timetravel_enum_thorough() {
+	timetravel_enum_impl(4, "timetravel_enum_thorough").await;
+}
